@@ -185,6 +185,10 @@ def evaluate(P, cases, stats):
                 findings.append(dict(case=c, cls='prop', key='decoding did not terminate within the per-case limit',
                                      py='timeout=' + py['p.timeout'], model=''))
                 continue
+            if P.pid == 'C19':
+                findings.append(dict(case=c, cls='prop', key='the cost of a history of single mutations is not bounded by the changed paths (per-case time / memory limit exceeded)',
+                                     py='timeout=' + py['p.timeout'], model=''))
+                continue
             raise Infra('case timed out (%s s) on the python side: %s' % (py['p.timeout'], c[:300]))
         if 'HARNESS' in py:
             if py['HARNESS'] == 'crash':
@@ -294,8 +298,9 @@ def main():
             raise Infra('lake build failed; the driver is not available')
         cases = corpus + P.generate(g, tier)
         # chunked to bound memory / allow early exit
-        for i in range(0, len(cases), 400):
-            findings += evaluate(P, cases[i:i + 400], stats)
+        step = 400 if len(cases) <= 20000 else 20000
+        for i in range(0, len(cases), step):
+            findings += evaluate(P, cases[i:i + step], stats)
             if len([f for f in findings if f['cls'] == 'prop']) >= 5:
                 break
     except Infra as e:
